@@ -78,6 +78,8 @@ V("C05", "update_flush_only_on_success", "fire", "R05.c", (Z, """            sel
                         setattr(self_or_cls, tp, p._autotrigger_reset_value)
                     finally:
                         p._mode = 'set-reset'
+                for p in switched:
+                    p._mode = 'set-reset'
         return restore
 """, """            self_._BATCH_WATCH = BATCH_WATCH
             for tp in trigger_params:
@@ -87,6 +89,8 @@ V("C05", "update_flush_only_on_success", "fire", "R05.c", (Z, """            sel
                     setattr(self_or_cls, tp, p._autotrigger_reset_value)
                 finally:
                     p._mode = 'set-reset'
+            for p in switched:
+                p._mode = 'set-reset'
         if not BATCH_WATCH:
             self_._batch_call_watchers()
         return restore
@@ -2150,3 +2154,6 @@ V("C19", "time_context_stack_shared_by_all_clocks", "fire", "R19.s", (P, "    fo
 V("C20", "keyword_suppressed_against_parameter_default", "fire", "R20.c", (Z, "            if (k in kwargs) and (k in values) and kwargs[k] == values[k]: continue", "            if (k in kwargs) and (k in values) and (k not in changed_params): continue"))
 V("C20", "guard_thread_identity_captured_once", "fire", "R20.d", ("param/_utils.py", "        repr_running = set()\n\n        def wrapper(self, *args, **kwargs):\n            key = id(self), get_ident()", "        repr_running = set()\n        ident = get_ident()\n\n        def wrapper(self, *args, **kwargs):\n            key = id(self), ident"))
 V("C20", "benign_guard_key_built_in_two_steps", "benign", None, ("param/_utils.py", "            key = id(self), get_ident()", "            thread = get_ident()\n            key = (id(self), thread)"))
+V("C05", "benign_event_reset_skipped_for_unassigned_keys", "benign", None, (Z, "        try:\n            values = self_.values()\n            restore = {k: values[k] for k, v in kwargs.items() if k in values}", "        applied = set()\n        try:\n            values = self_.values()\n            restore = {k: values[k] for k, v in kwargs.items() if k in values}"), (Z, "                setattr(self_or_cls, k, v)\n        finally:", "                setattr(self_or_cls, k, v)\n                applied.add(k)\n        finally:"), (Z, "                for tp in trigger_params:\n                    p = self_[tp]\n                    p._mode = 'reset'", "                for tp in trigger_params:\n                    if tp not in applied:\n                        continue\n                    p = self_[tp]\n                    p._mode = 'reset'"))
+V("C04", "benign_event_reset_skipped_for_unassigned_keys", "benign", None, (Z, "        try:\n            values = self_.values()\n            restore = {k: values[k] for k, v in kwargs.items() if k in values}", "        applied = set()\n        try:\n            values = self_.values()\n            restore = {k: values[k] for k, v in kwargs.items() if k in values}"), (Z, "                setattr(self_or_cls, k, v)\n        finally:", "                setattr(self_or_cls, k, v)\n                applied.add(k)\n        finally:"), (Z, "                for tp in trigger_params:\n                    p = self_[tp]\n                    p._mode = 'reset'", "                for tp in trigger_params:\n                    if tp not in applied:\n                        continue\n                    p = self_[tp]\n                    p._mode = 'reset'"))
+V("C05", "switched_event_modes_not_restored", "fire", "R05.m", (Z, "                for p in switched:\n                    p._mode = 'set-reset'\n", ""))
